@@ -5,18 +5,27 @@ import logging
 from fim.graph.neo4j_property_graph import Neo4jGraphImporter
 
 
-class _Dict(dict):
-    """record payload answering any key the calling code might ask for"""
-    DEFAULTS = {
-        'nodeids': ['n1'], 'labels(n)': ['GraphNode', 'NetworkNode'],
-        'properties(n)': {'GraphID': 'g', 'NodeID': 'n1', 'Class': 'NetworkNode', 'Name': 'nm', 'Type': 'VM',
-                          'StructuralInfo': '{"adm_graph_ids": ["a1"]}'},
-        'type(r)': 'has', 'properties(r)': {'Class': 'has'}, 'common_ids': ['n1'], 'candidate_ids': ['n1'],
+# what the "database" holds: the node id it reports back and the model that contributed the node (set by the harness)
+ANSWER = {'node': 'n1', 'adm': 'a1'}
+
+
+def _defaults():
+    import json as _json
+    t = ANSWER['node']
+    return {
+        'nodeids': [t], 'labels(n)': ['GraphNode', 'NetworkNode'],
+        'properties(n)': {'GraphID': 'g', 'NodeID': t, 'Class': 'NetworkNode', 'Name': 'nm', 'Type': 'VM',
+                          'StructuralInfo': _json.dumps({'adm_graph_ids': [ANSWER['adm']]})},
+        'type(r)': 'has', 'properties(r)': {'Class': 'has'}, 'common_ids': [t], 'candidate_ids': [t],
         'AnotB': [], 'BnotA': [], 'nodes': [], 'nodes1': [],
     }
 
+
+class _Dict(dict):
+    """record payload answering any key the calling code might ask for"""
+
     def __missing__(self, key):
-        return self.DEFAULTS.get(key, 'x')
+        return _defaults().get(key, 'x')
 
     def get(self, key, default=None):
         return self[key]
@@ -24,7 +33,7 @@ class _Dict(dict):
 
 class Record:
     def data(self):
-        return _Dict({'nodeids': ['n1']})
+        return _Dict({'nodeids': [ANSWER['node']]})
 
     def value(self, *a):
         return ['S1', 'S2']
@@ -36,7 +45,7 @@ class Record:
         return 'None' if key == 'data' else 'x'
 
     def __getitem__(self, key):
-        return ['n1', 'n2']
+        return [ANSWER['node'], 'n2']
 
 
 class Result:
